@@ -115,7 +115,81 @@ def worker(arch):
         out["cli_total"] = int(m[0].group(2)) if m[0] else None
     except Exception as e:  # noqa
         out["cli_error"] = "%s: %s" % (type(e).__name__, e)
+    out["cli_path"] = cli_path_sweep(arch, raw, mm)
     return out
+
+
+CLI_PER_MODEL = [40]      # representatives per model (quick); thorough: every payload class
+
+
+def cli_path_sweep(arch, raw, mm):
+    """The property's CLI path: one instruction synthesised from an entry's own pattern, analysed by the real
+    `osaca.inspect` (optimal and --fixed, text report and --yaml-out).  One representative per payload class
+    (throughput / latency absent, zero or positive; micro-op list empty, plain or with alternatives; operand classes),
+    rare classes first."""
+    import argparse
+    import warnings
+
+    from harness import c07synth as S
+    import osaca.osaca as oo
+
+    warnings.filterwarnings("ignore")
+    isa = mm.get_ISA().lower()
+    isa = "x86" if isa == "x86" else "aarch64"
+
+    def cls(v):
+        return "none" if v is None else ("zero" if v == 0 else "pos")
+
+    classes = {}
+    for ri, name, e in S.expand_forms(raw.get("instruction_forms") or []):
+        ops = e.get("operands") or []
+        pp = e.get("port_pressure")
+        key = (cls(e.get("throughput")), cls(e.get("latency")),
+               "none" if pp is None else ("alts" if isinstance(pp, dict) else ("empty" if len(pp) == 0 else "list")),
+               tuple(str(o.get("class")) for o in ops if isinstance(o, dict)))
+        classes.setdefault(key, []).append((name, ops))
+    # rare payload classes (absent / zero values) first
+    order = sorted(classes, key=lambda k: (k[0] == "pos" and k[1] == "pos" and k[2] == "list", len(classes[k]), repr(k)))
+    res = {"classes": len(classes), "runs": 0, "failures": [], "unwritten": 0}
+    done = 0
+    for key in order:
+        if done >= CLI_PER_MODEL[0]:
+            break
+        line = None
+        for name, ops in classes[key][:6]:
+            if isa == "x86" and len(ops) > 4:
+                continue
+            line, _why = S.synth_line(isa, name, ops, S.Pick())
+            if line is not None:
+                break
+        if line is None:
+            res["unwritten"] += 1
+            continue
+        done += 1
+        for fixed in (False, True):
+            f = io.StringIO(line + "\n")
+            f.name = "entry.s"
+            yout = io.StringIO()
+            args = argparse.Namespace(file=f, arch=arch, fixed=fixed, verbose=0, ignore_unknown=False, lines=None,
+                                      lcd_timeout=-1, consider_flag_deps=False, dotpath=None, yaml_out=yout)
+            res["runs"] += 1
+            try:
+                oo.inspect(args, output_file=io.StringIO())
+                # the document carries OSACA's operand objects under python tags: read the numbers textually
+                bad = []
+                for m in re.finditer(r"^\s*-?\s*(Throughput|Latency|LatencyWithoutLoad|LatencyCP|LatencyLCD):\s*(\S+)\s*$", yout.getvalue(), re.M):
+                    try:
+                        if m.group(2) not in ("null", "~") and float(m.group(2)) < 0:
+                            bad.append((m.group(1), m.group(2)))
+                    except ValueError:
+                        bad.append((m.group(1), m.group(2)))
+                if not yout.getvalue().strip():
+                    bad.append(("yaml-out", "empty"))
+                if bad:
+                    res["failures"].append({"line": line, "fixed": fixed, "class": repr(key), "error": "negative or non-numeric %s" % bad[:3]})
+            except BaseException as e:  # noqa  (inspect may call sys.exit)
+                res["failures"].append({"line": line, "fixed": fixed, "class": repr(key), "error": "%s: %s" % (type(e).__name__, str(e)[:200])})
+    return res
 
 
 def run(ctx):
@@ -131,6 +205,7 @@ def run(ctx):
 
     for isa_db in ("isa/x86", "isa/aarch64"):
         MachineModel(arch=isa_db)
+    CLI_PER_MODEL[0] = 40 if ctx.tier == "quick" else 10 ** 6
     with multiprocessing.get_context("fork").Pool(min(16, len(archs))) as pool:
         results = pool.map(worker, archs)
     n_values = n_bad = n_corr = n_alts = 0
@@ -206,6 +281,14 @@ def run(ctx):
                               % (arch, res["cli_counts"], res["cli_total"], res["raw_counts"], res["n_loaded"]),
                               {"arch": arch, "cli": res["cli_counts"], "raw": res["raw_counts"]}, key="counts:" + arch)
         ctx.count("forms_loaded", res["n_loaded"])
+        cp = res.get("cli_path") or {}
+        ctx.count("cli_path_runs", cp.get("runs", 0))
+        ctx.count("cli_path_classes", cp.get("classes", 0))
+        for fl in cp.get("failures", [])[:3]:
+            ctx.violation("%s: analysing `%s` (%s, text report + --yaml-out), an instruction that matches a shipped form, fails: %s"
+                          % (arch, fl["line"], "--fixed" if fl["fixed"] else "optimal", fl["error"]),
+                          {"kind": "cli-path", "arch": arch, "line": fl["line"], "fixed": fl["fixed"], "class": fl["class"], "error": fl["error"]},
+                          key="cli:%s:%s" % (arch, fl["line"]))
     ctx.count("distinct_uop_lists", n_values)
     ctx.count("alternatives", n_alts)
     ctx.count("malformed", n_bad)
@@ -231,6 +314,24 @@ def replay(ctx, path):
     ctx.env.activate()
     from osaca.semantics import MachineModel
 
+    if rep.get("kind") == "cli-path":
+        import argparse
+        import osaca.osaca as oo
+
+        f = io.StringIO(rep["line"] + "\n")
+        f.name = "entry.s"
+        yout = io.StringIO()
+        args = argparse.Namespace(file=f, arch=rep["arch"], fixed=rep["fixed"], verbose=0, ignore_unknown=False, lines=None,
+                                  lcd_timeout=-1, consider_flag_deps=False, dotpath=None, yaml_out=yout)
+        try:
+            oo.inspect(args, output_file=io.StringIO())
+            print("`%s` on %s (%s): analysed, %d bytes of --yaml-out" % (rep["line"], rep["arch"], "--fixed" if rep["fixed"] else "optimal", len(yout.getvalue())))
+            rc = 0
+        except BaseException as e:  # noqa
+            print("`%s` on %s (%s): %s: %s" % (rep["line"], rep["arch"], "--fixed" if rep["fixed"] else "optimal", type(e).__name__, e))
+            rc = 1
+        ctx.cleanup()
+        return rc
     if "where" not in rep:
         print("replay names a broken theorem/correspondence or a count:", json.dumps(rep)[:800])
         ctx.cleanup()
